@@ -378,6 +378,9 @@ def run(res):
             returned, lat_us, ec, val, t_ret, t_b, t_c, g0, g_after, settled = f
             evals += 1
             nomark = "NOMARK" in ec
+            earlydone = "EARLYDONE" in ec       # the evaluation had ended before the cancellation was issued
+            if earlydone:
+                cov["ended_before_cancellation"] = cov.get("ended_before_cancellation", 0) + 1
             ec = ec.split(" ")[0]
             errhist[ec] = errhist.get(ec, 0) + 1
             m = model_out[c["mkey"]] if c["mkey"] else None
@@ -395,7 +398,7 @@ def run(res):
                 why = "goroutines did not settle after the return (%s before, %s after)" % (g0, g_after)
             elif t_b != t_c:
                 why = "script code kept running after the return: tick() counter %s -> %s" % (t_b, t_c)
-            elif ec != "ctx":
+            elif ec != "ctx" and not earlydone:
                 why = "returned error is %s, not the context's error" % ec
             if why:
                 cls = known_class(c, ec) if why.startswith("returned error") else None
@@ -411,7 +414,7 @@ def run(res):
                 pass
             elif not m["complete"]:
                 unexplored.add(c["mkey"])
-            elif returned == "true" and ec not in m["results"] and not nomark:
+            elif returned == "true" and ec not in m["results"] and not nomark and not earlydone:
                 corr_diffs.append(dict(info, why="the model allows %s, the implementation returned %s" % (m["results"], ec)))
             elif m["stuck"] != (settled != "true" or t_b != t_c):
                 corr_diffs.append(dict(info, why="model stuck=%s, implementation settled=%s ticks %s->%s" % (m["stuck"], settled, t_b, t_c)))
